@@ -144,15 +144,20 @@ theorem tri_closest_gram (A B C D E F q u v : K) (hA : 0 < A) (hG : 0 < A * C - 
   set us := (D * C - E * B) / (A * C - B * B) with hus
   set vs := (A * E - B * D) / (A * C - B * B) with hvs
   have hGne : A * C - B * B ≠ 0 := ne_of_gt hG
+  have gu : (A * C - B * B) * us = D * C - E * B := by rw [hus]; exact mul_div_cancel₀ _ hGne
+  have gv : (A * C - B * B) * vs = A * E - B * D := by rw [hvs]; exact mul_div_cancel₀ _ hGne
   -- normal equations
-  have n1 : A * us + B * vs = D := by rw [hus, hvs]; field_simp; ring
-  have n2 : B * us + C * vs = E := by rw [hus, hvs]; field_simp; ring
+  have n1 : A * us + B * vs = D := by
+    apply mul_left_cancel₀ hGne; linear_combination A * gu + B * gv
+  have n2 : B * us + C * vs = E := by
+    apply mul_left_cancel₀ hGne; linear_combination B * gu + C * gv
+  clear_value us vs
   -- f along the path towards the foot
   have hpath : ∀ s, fQ A B C D E F (u + s * (us - u)) (v + s * (vs - v)) =
       fQ A B C D E F us vs + (1 - s) * (1 - s) * (A * (u - us) * (u - us) + 2 * B * (u - us) * (v - vs) + C * (v - vs) * (v - vs)) := by
     intro s
     simp only [fQ]
-    linear_combination (2 * (1 - s) * (u - us) * (-1) + 0) * n1 + (2 * (1 - s) * (v - vs) * (-1)) * n2
+    linear_combination (2 * (1 - s) * (u - us)) * n1 + (2 * (1 - s) * (v - vs)) * n2
   have hQ : 0 ≤ A * (u - us) * (u - us) + 2 * B * (u - us) * (v - vs) + C * (v - vs) * (v - vs) := by
     have e : A * (A * (u - us) * (u - us) + 2 * B * (u - us) * (v - vs) + C * (v - vs) * (v - vs)) =
         (A * (u - us) + B * (v - vs)) * (A * (u - us) + B * (v - vs)) + (A * C - B * B) * ((v - vs) * (v - vs)) := by ring
@@ -175,7 +180,7 @@ theorem tri_closest_gram (A B C D E F q u v : K) (hA : 0 < A) (hG : 0 < A * C - 
   · right
     have hviol : us < 0 ∨ vs < 0 ∨ 1 - us - vs < 0 := by
       by_contra hcon
-      push_neg at hcon
+      simp only [not_or, not_lt] at hcon
       exact hin ⟨hcon.1, hcon.2.1, by linarith [hcon.2.2]⟩
     obtain ⟨s, hs0, hs1, k1, k2, k3, hz⟩ :=
       exit_param u v (1 - u - v) us vs (1 - us - vs) hu hv (by linarith) hviol
@@ -251,9 +256,18 @@ theorem triBallSpec_iff (a b c ctr : V3 K) (q : K)
   have hwn : (ctr.sub a).dot ((b.sub a).cross (c.sub a)) * (ctr.sub a).dot ((b.sub a).cross (c.sub a)) =
       (A * C - B * B) * fQ A B C D E F ((D * C - E * B) / (A * C - B * B)) ((A * E - B * D) / (A * C - B * B)) := by
     have hGne : A * C - B * B ≠ 0 := ne_of_gt hG
-    have e : (A * C - B * B) * fQ A B C D E F ((D * C - E * B) / (A * C - B * B)) ((A * E - B * D) / (A * C - B * B)) =
+    have gu : (A * C - B * B) * ((D * C - E * B) / (A * C - B * B)) = D * C - E * B := mul_div_cancel₀ _ hGne
+    have gv : (A * C - B * B) * ((A * E - B * D) / (A * C - B * B)) = A * E - B * D := mul_div_cancel₀ _ hGne
+    generalize (D * C - E * B) / (A * C - B * B) = us at gu ⊢
+    generalize (A * E - B * D) / (A * C - B * B) = vs at gv ⊢
+    have n1 : A * us + B * vs = D := by
+      apply mul_left_cancel₀ hGne; linear_combination A * gu + B * gv
+    have n2 : B * us + C * vs = E := by
+      apply mul_left_cancel₀ hGne; linear_combination B * gu + C * gv
+    have e : (A * C - B * B) * fQ A B C D E F us vs =
         A * C * F + 2 * B * D * E - A * E * E - C * D * D - B * B * F := by
-      simp only [fQ]; field_simp; ring
+      simp only [fQ]
+      linear_combination ((A * C - B * B) * us) * n1 + ((A * C - B * B) * vs) * n2 - D * gu - E * gv
     rw [e]
     simp only [hAd, hBd, hCd, hDd, hEd, hFd, V3.cross, V3.dot, V3.sub]; ring
   unfold triBallSpec
